@@ -295,6 +295,37 @@ func genEntries(r *rand.Rand, w world) []ent {
 			"/nonexistent-c38/x", "a", "d", ".", "..", "", "nope", "dd", "d/in", "./d/../d",
 		}
 	}
+	if r.Intn(5) == 0 {
+		// the shape of finding C38-1 with random names, depths, targets and continuations: a directory with a mode,
+		// replaced by a symlink (or a file), then a shorter-path directory / the same directory again / nothing
+		names := []string{"d", "dd", "n1", "x y", "longer-name"}
+		var es []ent
+		es = append(es, ent{name: "r", typ: tar.TypeDir, mode: modes[r.Intn(len(modes))], mtime: mtimes[r.Intn(len(mtimes))]})
+		p := []string{}
+		depth := 1 + r.Intn(3)
+		for i := 0; i < depth; i++ {
+			p = append(p, names[r.Intn(len(names))])
+			es = append(es, ent{name: "r/" + strings.Join(p, "/"), typ: tar.TypeDir, mode: []int64{0o700, 0o1777, 0o2711, 0o500, 0}[r.Intn(5)], mtime: mtimes[r.Intn(len(mtimes))]})
+		}
+		victim := "r/" + strings.Join(p, "/")
+		ts := targets(len(p))
+		if r.Intn(4) == 0 {
+			es = append(es, ent{name: victim, typ: tar.TypeReg, mode: 0o644, mtime: 1, content: 5})
+		} else {
+			es = append(es, ent{name: victim, typ: tar.TypeSymlink, mode: 0o777, mtime: mtimes[r.Intn(len(mtimes))], link: ts[r.Intn(10)]})
+		}
+		switch r.Intn(5) {
+		case 0:
+			es = append(es, ent{name: "r/e", typ: tar.TypeDir, mode: 0o711, mtime: 1})
+		case 1:
+			es = append(es, ent{name: victim, typ: tar.TypeDir, mode: 0o700, mtime: 1})
+		case 2:
+			es = append(es, ent{name: victim + "/in", typ: tar.TypeReg, mode: 0o600, mtime: 1, content: 6})
+		case 3:
+			es = append(es, ent{name: "r/z", typ: tar.TypeSymlink, mode: 0o777, mtime: 1, link: ""})
+		}
+		return es
+	}
 	rootName := "r"
 	if r.Intn(20) == 0 {
 		rootName = []string{"", ".", "..", "r/x", "x y", "r.", "rr"}[r.Intn(7)]
